@@ -56,6 +56,7 @@ Inductive bexp :=
 | BIriEquals (a b : sexp) (cs : bool)        (* a.Equals(b, cs), resolved to the method of IRI *)
 | BCall (f : bytes) (args : list var)        (* f(args): a package-level function *)
 | BMethod (m : bytes) (recv : var) (args : list var)   (* recv.M(args); m = "<static receiver type>.<M>" (go/types) *)
+| BIdx (v j : var)                           (* v[j]: v a []bool local, j the index variable of a range loop *)
 | BUnrec (src pos : bytes).
 
 Inductive stmt :=
@@ -68,6 +69,9 @@ Inductive stmt :=
 | SSetBool (v : var) (e : bexp)              (* v = e *)
 | SDeclType (v : var) (t : texp)             (* v := t (also the init of `if v := t; c {`) *)
 | SFor (v coll : var) (body : stmt)          (* for _, v := range coll { body } *)
+| SForIdx (j v coll : var) (body : stmt)     (* for j, v := range coll { body } *)
+| SDeclBools (v : var) (n : nexp)            (* v := make([]bool, n) *)
+| SSetIdx (v j : var) (e : bexp)             (* v[j] = e *)
 | SBreak
 | SOn (w : onview) (arg param : var) (body : stmt)   (* _ = On<w>(arg, func(param *w) error { body }) *)
 | SUnrec (src pos : bytes).
@@ -81,7 +85,9 @@ Definition blk (l : list stmt) : stmt := fold_right SSeq SSkip l.
 Inductive dval :=
 | VItem (i : item)                           (* anything that is an Item (an ItemCollection / IRIs value too) *)
 | VNl (l : nl)                               (* NaturalLanguageValues *)
-| VLrv (e : lrv).                            (* LangRefValue *)
+| VLrv (e : lrv)                             (* LangRefValue *)
+| VBools (l : list bool)                     (* a []bool made by make *)
+| VNat (n : nat).                            (* the index variable of a range loop *)
 
 Record dstate := mkst { st_vals : list (var * dval); st_types : list (var * bytes); st_bools : list (var * bool) }.
 
@@ -184,6 +190,27 @@ Fixpoint for_loop (step : dval -> dstate -> outcome signal) (l : list dval) (s :
                       end)
   end.
 
+(* for j, x := range l { step }: the same with the position *)
+Fixpoint for_loop_idx (step : nat -> dval -> dstate -> outcome signal) (k : nat) (l : list dval) (s : dstate) : outcome signal :=
+  match l with
+  | [] => Ok (SgNormal s)
+  | x :: r =>
+      obind (step k x s)
+            (fun g => match g with
+                      | SgNormal s' => for_loop_idx step (S k) r s'
+                      | SgBreak s' => Ok (SgNormal s')
+                      | other => Ok other
+                      end)
+  end.
+
+(* l[k] = b; None = index out of range *)
+Fixpoint set_nth (l : list bool) (k : nat) (b : bool) : option (list bool) :=
+  match l, k with
+  | [], _ => None
+  | _ :: t, O => Some (b :: t)
+  | x :: t, S k' => option_map (cons x) (set_nth t k' b)
+  end.
+
 (* generic in the IRI comparison [ideq a b cs] = a.Equals(b, cs), like module EqG of Model/Equal.v (builder b47); the
    names without prefix after the module are the instance with iri_eqb, as abbreviations *)
 Module ItG.
@@ -218,6 +245,12 @@ Section Exec.
     | BMethod m r args =>
         match vget r (st_vals s), vals_of s args with
         | Some d, Some ds => match ce_method E m d ds with Some o => o | None => Err end
+        | _, _ => Err
+        end
+    | BIdx v j =>
+        match vget v (st_vals s), vget j (st_vals s) with
+        | Some (VBools l), Some (VNat k) =>
+            match nth_error l k with Some b => Ok b | None => Panic IndexOutOfRange end
         | _, _ => Err
         end
     | BUnrec _ _ => Err
@@ -272,6 +305,25 @@ Section Exec.
             | None => Err
             end
         | None => Err
+        end
+    | SForIdx j v coll body =>
+        match vget coll (st_vals s) with
+        | Some d =>
+            match range_of d with
+            | Some l => for_loop_idx (fun k x s' => exec body (bind v x (bind j (VNat k) s'))) 0 l s
+            | None => Err
+            end
+        | None => Err
+        end
+    | SDeclBools v n => obind (ev_nexp s n) (fun k => Ok (SgNormal (bind v (VBools (repeat false k)) s)))
+    | SSetIdx v j e =>
+        match vget v (st_vals s), vget j (st_vals s) with
+        | Some (VBools l), Some (VNat k) =>
+            obind (ev_b s e) (fun b => match set_nth l k b with
+                                       | Some l' => Ok (SgNormal (bind v (VBools l') s))
+                                       | None => Panic IndexOutOfRange
+                                       end)
+        | _, _ => Err
         end
     | SBreak => Ok (SgBreak s)
     | SOn w arg param body =>
@@ -439,7 +491,7 @@ Notation sem_nlv_equals := (ItG.sem_nlv_equals iri_eqb).
 Notation items_equal_t := (ItG.items_equal_t iri_eqb).
 (* ------------------------------------------------------------------ the model's side of the condition *)
 (* the statement sequences the functions of Model/Equal.v (needs_swap, items_equal_body with object_branch,
-   contains_m, itemcoll_equals with all_contained), Model/IriEq.v (iris_contains) and Model/Nlv.v (nl_equals) were
+   contains_m, itemcoll_equals with all_matched / find_unused), Model/IriEq.v (iris_contains) and Model/Nlv.v (nl_equals) were
    written after.  Proofs/ItemsEqTabP.v proves that, interpreted, they ARE those functions. *)
 Definition v_it := B "it".
 Definition v_with := B "with".
@@ -501,6 +553,30 @@ Definition m_ic_contains : gofn := mkgofn n_ic_contains (Some (B "i")) [B "r"] (
   SReturn (BConst false)]).
 
 Definition m_ic_equals : gofn := mkgofn n_ic_equals (Some (B "i")) [v_with] (blk [
+  SIf (BPred PIsNil v_with)
+      (blk [SReturn (BOr (BPred PIsNil (B "i")) (BNumEq (NLen (B "i")) (NLit 0)))]) SSkip;
+  SIf (BNot (BIsCollectionM v_with)) (blk [SReturn (BConst false)]) SSkip;
+  SDeclType (B "typ") (TOf v_with);
+  SIf (BAnd (BNot (BTypeEq (TVar (B "typ")) (TConst (B "ItemCollection"))))
+            (BNot (BTypeEq (TVar (B "typ")) (TConst (B "IRICollection")))))
+      (blk [SReturn (BConst false)]) SSkip;
+  SDeclBool v_result (BConst true);
+  SOn VItemColl v_with (B "w") (blk [
+    SIf (BNot (BNumEq (NCount (B "w")) (NCount (B "i"))))
+        (blk [SSetBool v_result (BConst false); SReturnNil]) SSkip;
+    SDeclBools (B "used") (NLen (B "w"));
+    SFor v_it (B "i") (blk [
+      SDeclBool (B "found") (BConst false);
+      SForIdx (B "j") (B "wit") (B "w") (blk [
+        SIf (BAnd (BNot (BIdx (B "used") (B "j"))) (BCall n_items_equal [B "wit"; v_it]))
+            (blk [SSetIdx (B "used") (B "j") (BConst true); SSetBool (B "found") (BConst true); SBreak]) SSkip]);
+      SIf (BNot (BVar (B "found"))) (blk [SSetBool v_result (BConst false); SReturnNil]) SSkip]);
+    SReturnNil]);
+  SReturn (BVar v_result)]).
+
+(* the body before the fix "ItemCollection.Equals only asked whether every member is contained in the other list":
+   the table condition refuses it (C09_itemseq_table_rejects_contains_loop) *)
+Definition m_ic_equals_contains_pinned : gofn := mkgofn n_ic_equals (Some (B "i")) [v_with] (blk [
   SIf (BPred PIsNil v_with)
       (blk [SReturn (BOr (BPred PIsNil (B "i")) (BNumEq (NLen (B "i")) (NLit 0)))]) SSkip;
   SIf (BNot (BIsCollectionM v_with)) (blk [SReturn (BConst false)]) SSkip;
@@ -579,6 +655,7 @@ Fixpoint bexp_beq (a b : bexp) : bool :=
   | BIriEquals x y c, BIriEquals x' y' c' => sexp_beq x x' && sexp_beq y y' && Bool.eqb c c'
   | BCall f xs, BCall g ys => bytes_eqb f g && lbeq bytes_eqb xs ys
   | BMethod m r xs, BMethod m' r' ys => bytes_eqb m m' && bytes_eqb r r' && lbeq bytes_eqb xs ys
+  | BIdx v j, BIdx v' j' => bytes_eqb v v' && bytes_eqb j j'
   | BUnrec s p, BUnrec s' p' => bytes_eqb s s' && bytes_eqb p p'
   | _, _ => false
   end.
@@ -591,6 +668,9 @@ Fixpoint stmt_beq (a b : stmt) : bool :=
   | SDeclBool v e, SDeclBool v' e' | SSetBool v e, SSetBool v' e' => bytes_eqb v v' && bexp_beq e e'
   | SDeclType v t, SDeclType v' t' => bytes_eqb v v' && texp_beq t t'
   | SFor v c x, SFor v' c' y => bytes_eqb v v' && bytes_eqb c c' && stmt_beq x y
+  | SForIdx j v c x, SForIdx j' v' c' y => bytes_eqb j j' && bytes_eqb v v' && bytes_eqb c c' && stmt_beq x y
+  | SDeclBools v n, SDeclBools v' n' => bytes_eqb v v' && nexp_beq n n'
+  | SSetIdx v j e, SSetIdx v' j' e' => bytes_eqb v v' && bytes_eqb j j' && bexp_beq e e'
   | SOn w a p x, SOn w' a' p' y => view_beq w w' && bytes_eqb a a' && bytes_eqb p p' && stmt_beq x y
   | SUnrec s p, SUnrec s' p' => bytes_eqb s s' && bytes_eqb p p'
   | _, _ => false
